@@ -106,7 +106,7 @@ CLAIMS = {
     "C07": dict(
         text="For every failure behaviour of a wrapped sub-analyzer and of the top-level analyzer (all panic kinds, errors, missing or ill-typed results) and all analyzer names / messages (symbolic), "
              "no panic escapes: it becomes Result.Err (resp. one diagnostic at a valid position) carrying the INTERNAL PANIC prefix and the panic value; returned errors are wrapped, not lost.",
-        note="Containment clause at kernel level; totality only for a stated family: each of 50 statement templates (thorough: all 2500 ordered pairs) and every program of the C01 grammar is analysed by the real pipeline "
+        note="Containment clause at kernel level; totality only for a stated family: each of 75 statement templates (thorough: all 5625 ordered pairs) and every program of the C01 grammar is analysed by the real pipeline "
              "without panic, backpropagation error or INTERNAL diagnostic. P07 is template enumeration executed by symx (no symbolic scalars). Found and fixed (four fix: commits): function literal as switch tag, "
              "conversion on the left of an index assignment, parenthesised multi-value call argument, negated case expression of a tagged switch. Totality for every package is outside. " + PIPE_NOTE,
     ),
